@@ -650,6 +650,16 @@ class AProc(ScriptedMixin, Process):
             c = pick('pool', op[2])
             if c is not None:
                 up['pool'] = {c: {'vars': {'n': op[3]}}}
+        elif kind == 'del_named':
+            if op[1] in states['agents']:
+                up['agents'] = {'_delete': [op[1]]}
+        elif kind == 'gen_named':
+            # (re)generate a compartment under a given key: together with a
+            # `del_named` by another actor in the same batch this replaces a cell
+            procs, steps, flow, topo = self._cell(op[2])
+            up['agents'] = {'_generate': [{
+                'key': op[1], 'processes': procs, 'steps': steps, 'flow': flow,
+                'topology': topo, 'initial_state': {'vars': decode_value(copy.deepcopy(op[3]))}}]}
         elif kind == 'add_leaf' and s.get('tokens'):
             up['tokens'] = {'_add': [{'key': self._fresh(k), 'state': op[1]}]}
         elif kind == 'del_leaf' and s.get('tokens'):
